@@ -341,6 +341,25 @@ def main(argv):
                            "what": "%d site(s) where the result may depend on map order, the clock, a random source, the OS, the scheduler or a memory address are not covered by a theorem of Properties/%s.v or by the reviewed list tools/c20_sites.json" % (len(scan["unlisted"]), pid),
                            "unlisted_sites": scan["unlisted"],
                            "theorems_no_longer_tied": [a["theorem"] for a in assum]})
+    searched = None
+    if (mism or (scan and scan["unlisted"])) and not failing_inputs and rep and tier == "quick" and os.environ.get("VERIF_NO_SEARCH") != "1":
+        # the tie between model and code is broken but no oracle fired on the quick inputs:
+        # search the implementation for an input on which the property itself fails
+        # (thorough-tier generators, two further seeds; the model is not consulted here)
+        searched = {"runs": []}
+        for s2 in (seed, seed + 1):
+            sdir = os.path.join(wdir, "search-%d" % s2)
+            os.makedirs(sdir, exist_ok=True)
+            try:
+                rep2 = harness_run(binp, pid, cfg["test"], "thorough", s2, sdir, cfg.get("timeout", {}).get("thorough", 3000))
+            except (Broken, subprocess.TimeoutExpired) as e:
+                searched["runs"].append({"seed": s2, "result": "search run did not complete: %s" % getattr(e, "what", e)})
+                continue
+            found = [f for f in (rep2.get("oracle_failures") or []) if f["signature"] not in known_sigs]
+            searched["runs"].append({"seed": s2, "tier": "thorough", "evaluations": rep2.get("evaluations"), "oracle_failures": len(found)})
+            if found:
+                failing_inputs = found
+                break
     if failing_inputs:
         violations.append({"kind": "oracle", "what": failing_inputs[0]["what"],
                            "failing_inputs": failing_inputs[:20], "n_failing": len(failing_inputs)})
@@ -357,7 +376,7 @@ def main(argv):
         print("KNOWN-FINDING: property=%s %s [%s]" % (pid, known_sigs[sig]["what"], sig))
     if violations:
         found = any(v["kind"] == "oracle" for v in violations)
-        json.dump({"property": pid, "seed": seed, "tier": tier, "violations": violations,
+        json.dump({"property": pid, "seed": seed, "tier": tier, "violations": violations, "failing_input_search": searched,
                    "replay_cmd": "./check %s --replay %s" % (pid, replay_path)},
                   open(replay_path, "w"), indent=1, default=str)
         for v in violations:
